@@ -56,9 +56,9 @@ if [ $rc -ne 0 ] && [ $rc -ne 1 ]; then
 fi
 
 # thorough tier of the byte-string properties: add a coverage-guided libFuzzer campaign with the same oracle
-if [ $rc -eq 0 ] && [ "$TIER" = thorough ] && [ -x "$VERIF/fuzz/run_fuzz.sh" ]; then
+if [ $rc -eq 0 ] && [ "$TIER" = thorough ] && [ -x "$VERIF/fuzzproj/run_fuzz.sh" ]; then
   case "$ID" in
-    C01|C02|C03|C06) "$VERIF/fuzz/run_fuzz.sh" "$ID"; rc=$? ;;
+    C01|C02|C03|C06) "$VERIF/fuzzproj/run_fuzz.sh" "$ID"; rc=$? ;;
   esac
 fi
 exit $rc
